@@ -131,6 +131,9 @@ NearMissVerdict(o) ==
   ELSE IF Ok(o.v) /\ Ok(o.on.e) THEN                          \* provably not an instruction, accepted by validator and encoder
        (IF C01DecoClass(o) THEN <<"X", "class:mask-or-evex-decoration-accepted-for-operand-signature-without-evex-row">>
         ELSE <<"V", "accepted-non-instruction">>)
+  (* no operand at all, although every row of the mnemonic has explicit operands: database AND encoder say "not a form"; *)
+  (* a validator that answers Ok stands alone (Builder/Compiler with kValidateIntermediate rely on this answer only)     *)
+  ELSE IF Ok(o.v) /\ Len(o.ops) = 0 /\ o.what = "no-operands" THEN <<"V", "validator-accepts-request-without-operands">>
   ELSE IF Ok(o.v) THEN <<"I", "near-miss:validator-accepts-encoder-refuses">>
   ELSE IF Ok(o.off.e) THEN <<"I", "near-miss:validator-refuses-encoder-accepts">>
   ELSE NONE
@@ -140,10 +143,64 @@ X86Verdict(o) == CASE o.kind = "base" -> BaseVerdict(o)
                    [] o.kind = "nm" -> NearMissVerdict(o)
                    [] OTHER -> <<"U", "kind">>
 
+\* ------------------------------------------------------------------------------------------------------------------
+\* AArch64: which operand patterns the database has (rows of db/isa_aarch64.json as read by tools/db_export_a64.js)
+\* ------------------------------------------------------------------------------------------------------------------
+A64Rows  == IF "A64ROWS" \in DOMAIN IOEnv THEN JsonDeserialize(IOEnv.A64ROWS) ELSE <<>>
+A64Names == IF "A64NAMES" \in DOMAIN IOEnv THEN JsonDeserialize(IOEnv.A64NAMES) ELSE [x \in {} |-> <<>>]
+A64RowsOf(n) == IF n \in DOMAIN A64Names THEN A64Names[n] ELSE <<>>
+
+HasIds(v) == "ids" \in DOMAIN v
+(* arrangement of operand k under the row's arrangement list entry e (ta = first column, tb = second); rows without a list   *)
+(* carry the arrangement literally                                                                                       *)
+ArrOk(row, k, lit, arr, e) == IF row.ov[k] = "" \/ e = <<>> THEN arr = lit
+                              ELSE arr = e[IF row.ov[k] = "tb" THEN 2 ELSE 1]
+(* general-purpose register: width as the row says (Rm = either); number 31 is SP where the row says Xn|SP, ZR elsewhere *)
+GpOk(w, sp, v) == (w = "r" \/ w = v.t) /\ (v.id = 31 => ((v.sp = 1) <=> sp))
+
+A64OpFits(row, k, e, v) ==
+  LET o == row.ops[k] IN
+  CASE o.k = "gp"   -> v.k = "r" /\ ~HasIds(v) /\ GpOk(o.w, o.sp, v)
+    [] o.k = "vs"   -> v.k = "v" /\ ~HasIds(v) /\ v.t = o.t
+    [] o.k = "va"   -> v.k = "v" /\ ~HasIds(v) /\ v.t = "v" /\ v.ei < 0 /\ ArrOk(row, k, o.arr, v.arr, e)
+    [] o.k = "ve"   -> v.k = "v" /\ ~HasIds(v) /\ v.t = "v" /\ v.ei >= 0 /\ v.arr = o.et
+    [] o.k = "list" -> /\ v.k \in {"v", "r"} /\ HasIds(v) /\ Len(v.ids) = o.n
+                       /\ CASE o.ek = "gp" -> v.k = "r" /\ v.t = o.ew
+                            [] o.ek = "va" -> v.k = "v" /\ v.t = "v" /\ v.ei < 0 /\ ArrOk(row, k, o.earr, v.arr, e)
+                            [] OTHER       -> v.k = "v" /\ v.t = "v" /\ v.ei >= 0 /\ v.arr = o.eet
+    [] o.k = "imm"  -> IF v.k = "-" THEN o.opt ELSE v.k = "i"
+    [] o.k = "mod"  -> v.k = "-" \/ (v.k = "s" /\ (Len(o.shops) = 0 \/ InSeq(v.op, o.shops)))
+    [] o.k = "mem"  -> v.k = "m" /\ ~o.pc /\ ((v.xi >= 0) <=> o.hasidx) /\ (v.xi >= 0 => (o.idxmod <=> (v.mode # "post")))
+    [] o.k = "cond" -> v.k = "c"
+    [] o.k = "cc"   -> v.k = "cc"
+    [] o.k = "rel"  -> v.k = "l"
+    [] o.k = "fimm" -> v.k = "f"
+    [] OTHER -> FALSE
+
+A64Fits(row, ops) == /\ row.ok /\ Len(ops) = Len(row.ops)
+                     /\ \E e \in (IF Len(row.tl) = 0 THEN {<<>>} ELSE {row.tl[j] : j \in 1..Len(row.tl)}) :
+                           \A k \in 1..Len(ops) : A64OpFits(row, k, e, ops[k])
+A64AnyRow(o) == \E r \in 1..Len(A64RowsOf(o.n)) : A64Fits(A64Rows[A64RowsOf(o.n)[r]], o.o)
+(* a row of this mnemonic the exporter cannot explain: its operand pattern is unknown, so "no row fits" cannot be concluded *)
+A64Unexplained(o) == \E r \in 1..Len(A64RowsOf(o.n)) : ~A64Rows[A64RowsOf(o.n)[r]].ok
+
+(* a probe = the operands of a database row with ONE dimension moved outside the row (arrangement, element type, scalar    *)
+(* view, element index, register width, SP/ZR, shift kind).  AArch64 has no operand validator: the encoder's acceptance is  *)
+(* the acceptance.  Accepted => some row of the mnemonic has this operand pattern.                                         *)
+A64ProbeVerdict(o) ==
+  IF ~o.known THEN <<"U", "mnemonic-unknown-to-this-release">>
+  ELSE IF Ok(o.on.e) /\ Ok(o.off.e) /\ o.on.b # o.off.b THEN <<"V", "validation-on-changes-the-bytes">>
+  ELSE IF Ok(o.on.e) # Ok(o.off.e) THEN OnOffClause(o)
+  ELSE IF ~Ok(o.off.e) THEN NONE
+  ELSE IF A64AnyRow(o) THEN NONE
+  ELSE IF A64Unexplained(o) THEN <<"U", "mnemonic-has-rows-the-exporter-cannot-explain">>
+  ELSE <<"V", "accepted-non-instruction">>
+
 (* AArch64: one mode, InstAPI::validate has no operand validator in the pinned release (it answers Ok); the invariants  *)
 (* reduce to: a vendored form keeps being accepted, and validation on/off changes nothing                             *)
 A64Verdict(o) ==
-  IF ~o.known THEN (IF o.impl THEN <<"V", "vendored-form-name-no-longer-known">> ELSE <<"U", "mnemonic-unknown-to-this-release">>)
+  IF o.kind = "probe" THEN A64ProbeVerdict(o)
+  ELSE IF ~o.known THEN (IF o.impl THEN <<"V", "vendored-form-name-no-longer-known">> ELSE <<"U", "mnemonic-unknown-to-this-release">>)
   ELSE IF o.kind = "base" THEN
        (IF o.impl THEN (IF ~Ok(o.v) THEN <<"V", "vendored-form-refused-by-validator">>
                         ELSE IF ~Ok(o.off.e) THEN <<"V", "vendored-form-refused-by-encoder">>
